@@ -1,0 +1,294 @@
+//go:build verif
+
+// Contracts for contract-based deductive verification (checked by /verif/govc).
+// This file is comment-only and compiled only with the build tag "verif".
+//
+// C05 (cache part): container.Set* setters and the pending-change machinery.
+
+package cache
+
+// ---- the pending NRI request of a container ------------------------------------------------------
+// container.request is nil, a *nri.ContainerAdjustment (container being created) or a *nri.ContainerUpdate.
+// Interface values holding pointers are modelled by the pointer, so the two "casts" below are identities.
+
+//@ pure asAdj(r *nri.ContainerAdjustment) *nri.ContainerAdjustment = r
+//@ pure asUpd(r *nri.ContainerUpdate) *nri.ContainerUpdate = r
+//@ pure isAdj(r any) bool = typeis(r, *nri.ContainerAdjustment)
+//@ pure isUpd(r any) bool = typeis(r, *nri.ContainerUpdate)
+//@ pure reqOK(c *container) bool = c.request == nil || isAdj(c.request) || isUpd(c.request)
+// A pending ContainerUpdate names the container's own id.
+//@ pure reqNamed(c *container) bool = isUpd(c.request) ==> asUpd(c.request).ContainerId == c.Ctr.Id
+// The LinuxResources message of the pending request (adjustment or update).
+//@ pure reqRes(c *container) *nri.LinuxResources = isAdj(c.request) ? asAdj(c.request).Linux.Resources : asUpd(c.request).Linux.Resources
+//@ pure reqHasRes(c *container) bool = isAdj(c.request) ? (asAdj(c.request).Linux != nil && asAdj(c.request).Linux.Resources != nil) :
+//@                                                       (isUpd(c.request) && asUpd(c.request).Linux != nil && asUpd(c.request).Linux.Resources != nil)
+
+//@ func (*container).getPendingRequest
+//@   requires c != nil && c.Ctr != nil
+//@   modifies c.request if c.request == nil
+//@   ensures[C05] result == c.request && result != nil
+//@   ensures[C05] old(c.request) != nil ==> c.request == old(c.request)
+//@   ensures[C05] old(c.request) == nil ==> fresh(c.request)
+//@   ensures[C05] old(c.request) == nil && c.Ctr.State == ContainerStateCreating ==> isAdj(c.request) && asAdj(c.request).Linux == nil
+//@   ensures[C05] old(c.request) == nil && c.Ctr.State != ContainerStateCreating ==> isUpd(c.request) && asUpd(c.request).ContainerId == c.Ctr.Id && asUpd(c.request).Linux == nil
+//@   ensures[C05] old(reqOK(c)) ==> reqOK(c)
+//@   ensures[C05] old(reqNamed(c)) ==> reqNamed(c)
+
+// ---- pending marks ----------------------------------------------------------------------------------
+// c.pending: controllers with undelivered changes for c; cache.pending: ids of containers with such marks.
+// Both are map[string]struct{}; a container's own mark set is never the cache's id set.
+
+//@ pure cwf(c *container) bool = c != nil && c.Ctr != nil && c.cache != nil && (c.pending == nil || c.pending != c.cache.pending)
+
+//@ func (*cache).markPending
+//@   requires cch != nil && c != nil && c.Ctr != nil
+//@   modifies cch.pending if cch.pending == nil, cch.pending[*] if cch.pending != nil
+//@   ensures[C05] cch.pending != nil && (old(cch.pending) != nil ==> cch.pending == old(cch.pending)) && (old(cch.pending) == nil ==> fresh(cch.pending))
+//@   ensures[C05] dom(cch.pending) == upd(old(dom(cch.pending)), c.Ctr.Id, true)
+
+//@ func (*cache).clearPending
+//@   requires cch != nil && c != nil && c.Ctr != nil
+//@   modifies cch.pending[*] if cch.pending != nil
+//@   ensures[C05] dom(cch.pending) == upd(old(dom(cch.pending)), c.Ctr.Id, false)
+
+//@ func (*container).markPending
+//@   requires cwf(c)
+//@   modifies c.pending if c.pending == nil, c.pending[*] if c.pending != nil, c.cache.pending if c.cache.pending == nil, c.cache.pending[*] if c.cache.pending != nil
+//@   ensures[C05] cwf(c) && c.pending != nil && (old(c.pending) != nil ==> c.pending == old(c.pending)) && (old(c.pending) == nil ==> fresh(c.pending))
+//@   ensures[C05] forall k string :: (k in c.pending) == (old(k in c.pending) || k in controllers)
+//@   ensures[C05] len(controllers) > 0 ==> c.Ctr.Id in c.cache.pending
+//@   ensures[C05] forall id string :: id != c.Ctr.Id ==> (id in c.cache.pending) == old(id in c.cache.pending)
+//@   ensures[C05] len(controllers) == 0 ==> (c.Ctr.Id in c.cache.pending) == old(c.Ctr.Id in c.cache.pending)
+//@   ensures[C05] old(c.cache.pending) != nil ==> c.cache.pending == old(c.cache.pending)
+//@   ensures[C05] old(c.cache.pending) == nil && len(controllers) > 0 ==> fresh(c.cache.pending)
+//@ loop 0 in (*container).markPending at "range controllers"
+//@   modifies c.pending[*] if c.pending != nil, c.cache.pending if c.cache.pending == nil, c.cache.pending[*] if c.cache.pending != nil
+//@   invariant[C05] cwf(c) && c.pending != nil && (old(c.pending) != nil ==> c.pending == old(c.pending)) && (old(c.pending) == nil ==> fresh(c.pending))
+//@   invariant[C05] -1 <= rangeindex && rangeindex < len(controllers)
+//@   invariant[C05] forall k string :: (k in c.pending) == (old(k in c.pending) || exists j int :: 0 <= j && j <= rangeindex && controllers[j] == k)
+//@   invariant[C05] rangeindex >= 0 ==> c.Ctr.Id in c.cache.pending
+//@   invariant[C05] rangeindex < 0 ==> (c.Ctr.Id in c.cache.pending) == old(c.Ctr.Id in c.cache.pending)
+//@   invariant[C05] forall id string :: id != c.Ctr.Id ==> (id in c.cache.pending) == old(id in c.cache.pending)
+//@   invariant[C05] old(c.cache.pending) != nil ==> c.cache.pending == old(c.cache.pending)
+//@   invariant[C05] old(c.cache.pending) == nil ==> c.cache.pending == nil || fresh(c.cache.pending)
+
+//@ func (*container).ClearPending
+//@   requires cwf(c)
+//@   modifies c.pending[*] if c.pending != nil, c.cache.pending[*] if c.cache.pending != nil
+//@   ensures[C05] dom(c.pending) == upd(old(dom(c.pending)), controller, false)
+//@   ensures[C05] (forall k string :: !(k in c.pending)) ==> dom(c.cache.pending) == upd(old(dom(c.cache.pending)), c.Ctr.Id, false)
+//@   ensures[C05] (exists k string :: k in c.pending) ==> dom(c.cache.pending) == old(dom(c.cache.pending))
+
+// ---- draining the pending request ----------------------------------------------------------------------
+
+//@ func (*container).GetPendingAdjustment
+//@   requires c != nil
+//@   modifies c.request
+//@   ensures[C05] c.request == nil
+//@   ensures[C05] old(isAdj(c.request)) ==> result == asAdj(old(c.request))
+//@   ensures[C05] !old(isAdj(c.request)) ==> result == nil
+
+//@ func (*container).GetPendingUpdate
+//@   requires c != nil
+//@   modifies c.request
+//@   ensures[C05] c.request == nil
+//@   ensures[C05] old(isUpd(c.request)) ==> result == asUpd(old(c.request))
+//@   ensures[C05] !old(isUpd(c.request)) ==> result == nil
+//@   ensures[C05] old(reqNamed(c)) && result != nil ==> result.ContainerId == c.Ctr.Id
+
+// ---- setters: cached field == pending request's field, container marked pending ----------------------------
+// Common part of every setter's postcondition (old() = entry state of the setter):
+//  - the request object is kept if there was one, else a fresh one of the kind given by the container state is made;
+//  - a fresh ContainerUpdate names the container's own id;
+//  - the container is marked pending for the NRI controller and its id is in the cache's pending set.
+
+//@ pure setReq(c *container) bool = c.request != nil && reqOK(c) && (old(c.request) != nil ==> c.request == old(c.request)) &&
+//@    (old(c.request) == nil ==> fresh(c.request) && (isAdj(c.request) <==> c.Ctr.State == ContainerStateCreating)) &&
+//@    (old(c.request) == nil && isUpd(c.request) ==> asUpd(c.request).ContainerId == c.Ctr.Id) && (old(reqNamed(c)) ==> reqNamed(c))
+//@ pure setMarked(c *container) bool = NRI in c.pending && c.Ctr.Id in c.cache.pending &&
+//@    (forall k string :: k != NRI ==> (k in c.pending) == old(k in c.pending)) &&
+//@    (forall id string :: id != c.Ctr.Id ==> (id in c.cache.pending) == old(id in c.cache.pending))
+// Objects created by a setter are new: mark sets, message objects on the path to the field, the request.
+//@ pure setFresh(c *container) bool =
+//@    (old(c.pending) == nil ? fresh(c.pending) : c.pending == old(c.pending)) &&
+//@    (old(c.cache.pending) == nil ? fresh(c.cache.pending) : c.cache.pending == old(c.cache.pending)) &&
+//@    (old(c.Ctr.Linux) == nil ? fresh(c.Ctr.Linux) : c.Ctr.Linux == old(c.Ctr.Linux)) &&
+//@    (old(ctrHasRes(c)) ? ctrRes(c) == old(ctrRes(c)) : fresh(ctrRes(c))) &&
+//@    (old(c.request) == nil && isAdj(c.request) ==> newobj(asAdj(c.request).Linux)) &&
+//@    (old(c.request) == nil && isUpd(c.request) ==> newobj(asUpd(c.request).Linux)) &&
+//@    (old(isAdj(c.request)) ==> (old(asAdj(c.request).Linux) != nil ? asAdj(c.request).Linux == old(asAdj(c.request).Linux) : newobj(asAdj(c.request).Linux))) &&
+//@    (old(isUpd(c.request)) ==> (old(asUpd(c.request).Linux) != nil ? asUpd(c.request).Linux == old(asUpd(c.request).Linux) : newobj(asUpd(c.request).Linux))) &&
+//@    (old(reqHasRes(c)) ? reqRes(c) == old(reqRes(c)) : (reqHasRes(c) ==> newobj(reqRes(c))))
+//@ pure ctrRes(c *container) *nri.LinuxResources = c.Ctr.Linux.Resources
+//@ pure ctrHasRes(c *container) bool = c.Ctr.Linux != nil && c.Ctr.Linux.Resources != nil
+
+// Frame of every setter: the request slot (only when empty), the two mark sets, and the message objects on the
+// path to the one field being set - in the cached NRI container and in the pending request. Nothing else
+// (in particular no other container's cached resources) changes.
+//@ func (*container).SetCPUShares
+//@   requires cwf(c) && reqOK(c)
+//@   modifies c.request if c.request == nil, c.pending if c.pending == nil, c.pending[*] if c.pending != nil, c.cache.pending if c.cache.pending == nil, c.cache.pending[*] if c.cache.pending != nil,
+//@     c.Ctr.Linux if c.Ctr.Linux == nil, c.Ctr.Linux.Resources if c.Ctr.Linux != nil && c.Ctr.Linux.Resources == nil,
+//@     asAdj(c.request).Linux if isAdj(c.request) && asAdj(c.request).Linux == nil,
+//@     asAdj(c.request).Linux.Resources if isAdj(c.request) && asAdj(c.request).Linux != nil && asAdj(c.request).Linux.Resources == nil,
+//@     asUpd(c.request).Linux if isUpd(c.request) && asUpd(c.request).Linux == nil,
+//@     asUpd(c.request).Linux.Resources if isUpd(c.request) && asUpd(c.request).Linux != nil && asUpd(c.request).Linux.Resources == nil,
+//@     ctrRes(c).Cpu if ctrHasRes(c) && ctrRes(c).Cpu == nil, ctrRes(c).Cpu.Shares if ctrHasRes(c) && ctrRes(c).Cpu != nil,
+//@     reqRes(c).Cpu if reqHasRes(c) && reqRes(c).Cpu == nil, reqRes(c).Cpu.Shares if reqHasRes(c) && reqRes(c).Cpu != nil
+//@   ensures[C05] cwf(c) && setReq(c) && setMarked(c)
+//@   ensures[C05] setFresh(c)
+//@   ensures[C05] reqHasRes(c) && reqRes(c).Cpu != nil && reqRes(c).Cpu.Shares != nil
+//@   ensures[C05] ctrHasRes(c) && ctrRes(c).Cpu != nil && ctrRes(c).Cpu.Shares != nil
+//@   ensures[C05] reqRes(c).Cpu.Shares.Value == ctrRes(c).Cpu.Shares.Value
+//@   ensures[C05] value >= 0 ==> ctrRes(c).Cpu.Shares.Value == value
+//@   ensures[C05] c.GetCPUShares() == value
+
+//@ func (*container).SetCPUQuota
+//@   requires cwf(c) && reqOK(c)
+//@   modifies c.request if c.request == nil, c.pending if c.pending == nil, c.pending[*] if c.pending != nil, c.cache.pending if c.cache.pending == nil, c.cache.pending[*] if c.cache.pending != nil,
+//@     c.Ctr.Linux if c.Ctr.Linux == nil, c.Ctr.Linux.Resources if c.Ctr.Linux != nil && c.Ctr.Linux.Resources == nil,
+//@     asAdj(c.request).Linux if isAdj(c.request) && asAdj(c.request).Linux == nil,
+//@     asAdj(c.request).Linux.Resources if isAdj(c.request) && asAdj(c.request).Linux != nil && asAdj(c.request).Linux.Resources == nil,
+//@     asUpd(c.request).Linux if isUpd(c.request) && asUpd(c.request).Linux == nil,
+//@     asUpd(c.request).Linux.Resources if isUpd(c.request) && asUpd(c.request).Linux != nil && asUpd(c.request).Linux.Resources == nil,
+//@     ctrRes(c).Cpu if ctrHasRes(c) && ctrRes(c).Cpu == nil, ctrRes(c).Cpu.Quota if ctrHasRes(c) && ctrRes(c).Cpu != nil,
+//@     reqRes(c).Cpu if reqHasRes(c) && reqRes(c).Cpu == nil, reqRes(c).Cpu.Quota if reqHasRes(c) && reqRes(c).Cpu != nil
+//@   ensures[C05] cwf(c) && setReq(c) && setMarked(c)
+//@   ensures[C05] setFresh(c)
+//@   ensures[C05] reqHasRes(c) && reqRes(c).Cpu != nil && reqRes(c).Cpu.Quota != nil
+//@   ensures[C05] ctrHasRes(c) && ctrRes(c).Cpu != nil && ctrRes(c).Cpu.Quota != nil
+//@   ensures[C05] reqRes(c).Cpu.Quota.Value == value && ctrRes(c).Cpu.Quota.Value == value
+//@   ensures[C05] c.GetCPUQuota() == value
+
+//@ func (*container).SetCPUPeriod
+//@   requires cwf(c) && reqOK(c)
+//@   modifies c.request if c.request == nil, c.pending if c.pending == nil, c.pending[*] if c.pending != nil, c.cache.pending if c.cache.pending == nil, c.cache.pending[*] if c.cache.pending != nil,
+//@     c.Ctr.Linux if c.Ctr.Linux == nil, c.Ctr.Linux.Resources if c.Ctr.Linux != nil && c.Ctr.Linux.Resources == nil,
+//@     asAdj(c.request).Linux if isAdj(c.request) && asAdj(c.request).Linux == nil,
+//@     asAdj(c.request).Linux.Resources if isAdj(c.request) && asAdj(c.request).Linux != nil && asAdj(c.request).Linux.Resources == nil,
+//@     asUpd(c.request).Linux if isUpd(c.request) && asUpd(c.request).Linux == nil,
+//@     asUpd(c.request).Linux.Resources if isUpd(c.request) && asUpd(c.request).Linux != nil && asUpd(c.request).Linux.Resources == nil,
+//@     ctrRes(c).Cpu if ctrHasRes(c) && ctrRes(c).Cpu == nil, ctrRes(c).Cpu.Period if ctrHasRes(c) && ctrRes(c).Cpu != nil,
+//@     reqRes(c).Cpu if reqHasRes(c) && reqRes(c).Cpu == nil, reqRes(c).Cpu.Period if reqHasRes(c) && reqRes(c).Cpu != nil
+//@   ensures[C05] cwf(c) && setReq(c) && setMarked(c)
+//@   ensures[C05] setFresh(c)
+//@   ensures[C05] reqHasRes(c) && reqRes(c).Cpu != nil && reqRes(c).Cpu.Period != nil
+//@   ensures[C05] ctrHasRes(c) && ctrRes(c).Cpu != nil && ctrRes(c).Cpu.Period != nil
+//@   ensures[C05] reqRes(c).Cpu.Period.Value == ctrRes(c).Cpu.Period.Value
+//@   ensures[C05] value >= 0 ==> ctrRes(c).Cpu.Period.Value == value
+//@   ensures[C05] c.GetCPUPeriod() == value
+
+//@ func (*container).SetCpusetCpus
+//@   requires cwf(c) && reqOK(c)
+//@   modifies c.request if c.request == nil, c.pending if c.pending == nil, c.pending[*] if c.pending != nil, c.cache.pending if c.cache.pending == nil, c.cache.pending[*] if c.cache.pending != nil,
+//@     c.Ctr.Linux if c.Ctr.Linux == nil, c.Ctr.Linux.Resources if c.Ctr.Linux != nil && c.Ctr.Linux.Resources == nil,
+//@     asAdj(c.request).Linux if isAdj(c.request) && asAdj(c.request).Linux == nil,
+//@     asAdj(c.request).Linux.Resources if isAdj(c.request) && asAdj(c.request).Linux != nil && asAdj(c.request).Linux.Resources == nil,
+//@     asUpd(c.request).Linux if isUpd(c.request) && asUpd(c.request).Linux == nil,
+//@     asUpd(c.request).Linux.Resources if isUpd(c.request) && asUpd(c.request).Linux != nil && asUpd(c.request).Linux.Resources == nil,
+//@     ctrRes(c).Cpu if ctrHasRes(c) && ctrRes(c).Cpu == nil, ctrRes(c).Cpu.Cpus if ctrHasRes(c) && ctrRes(c).Cpu != nil,
+//@     reqRes(c).Cpu if reqHasRes(c) && reqRes(c).Cpu == nil, reqRes(c).Cpu.Cpus if reqHasRes(c) && reqRes(c).Cpu != nil
+//@   ensures[C05] cwf(c) && setReq(c) && setMarked(c)
+//@   ensures[C05] setFresh(c)
+//@   ensures[C05] reqHasRes(c) && reqRes(c).Cpu != nil && ctrHasRes(c) && ctrRes(c).Cpu != nil
+//@   ensures[C05] reqRes(c).Cpu.Cpus == value && ctrRes(c).Cpu.Cpus == value
+//@   ensures[C05] c.GetCpusetCpus() == value
+
+//@ func (*container).SetCpusetMems
+//@   requires cwf(c) && reqOK(c)
+//@   modifies c.request if c.request == nil, c.pending if c.pending == nil, c.pending[*] if c.pending != nil, c.cache.pending if c.cache.pending == nil, c.cache.pending[*] if c.cache.pending != nil,
+//@     c.Ctr.Linux if c.Ctr.Linux == nil, c.Ctr.Linux.Resources if c.Ctr.Linux != nil && c.Ctr.Linux.Resources == nil,
+//@     asAdj(c.request).Linux if isAdj(c.request) && asAdj(c.request).Linux == nil,
+//@     asAdj(c.request).Linux.Resources if isAdj(c.request) && asAdj(c.request).Linux != nil && asAdj(c.request).Linux.Resources == nil,
+//@     asUpd(c.request).Linux if isUpd(c.request) && asUpd(c.request).Linux == nil,
+//@     asUpd(c.request).Linux.Resources if isUpd(c.request) && asUpd(c.request).Linux != nil && asUpd(c.request).Linux.Resources == nil,
+//@     ctrRes(c).Cpu if ctrHasRes(c) && ctrRes(c).Cpu == nil, ctrRes(c).Cpu.Mems if ctrHasRes(c) && ctrRes(c).Cpu != nil,
+//@     reqRes(c).Cpu if reqHasRes(c) && reqRes(c).Cpu == nil, reqRes(c).Cpu.Mems if reqHasRes(c) && reqRes(c).Cpu != nil
+//@   ensures[C05] cwf(c) && setReq(c) && setMarked(c)
+//@   ensures[C05] setFresh(c)
+//@   ensures[C05] reqHasRes(c) && reqRes(c).Cpu != nil && ctrHasRes(c) && ctrRes(c).Cpu != nil
+//@   ensures[C05] reqRes(c).Cpu.Mems == value && ctrRes(c).Cpu.Mems == value
+//@   ensures[C05] c.GetCpusetMems() == value
+
+//@ func (*container).SetMemoryLimit
+//@   requires cwf(c) && reqOK(c)
+//@   modifies c.request if c.request == nil, c.pending if c.pending == nil, c.pending[*] if c.pending != nil, c.cache.pending if c.cache.pending == nil, c.cache.pending[*] if c.cache.pending != nil,
+//@     c.Ctr.Linux if c.Ctr.Linux == nil, c.Ctr.Linux.Resources if c.Ctr.Linux != nil && c.Ctr.Linux.Resources == nil,
+//@     asAdj(c.request).Linux if isAdj(c.request) && asAdj(c.request).Linux == nil,
+//@     asAdj(c.request).Linux.Resources if isAdj(c.request) && asAdj(c.request).Linux != nil && asAdj(c.request).Linux.Resources == nil,
+//@     asUpd(c.request).Linux if isUpd(c.request) && asUpd(c.request).Linux == nil,
+//@     asUpd(c.request).Linux.Resources if isUpd(c.request) && asUpd(c.request).Linux != nil && asUpd(c.request).Linux.Resources == nil,
+//@     ctrRes(c).Memory if ctrHasRes(c) && ctrRes(c).Memory == nil, ctrRes(c).Memory.Limit if ctrHasRes(c) && ctrRes(c).Memory != nil,
+//@     reqRes(c).Memory if reqHasRes(c) && reqRes(c).Memory == nil, reqRes(c).Memory.Limit if reqHasRes(c) && reqRes(c).Memory != nil
+//@   ensures[C05] cwf(c) && setReq(c) && setMarked(c)
+//@   ensures[C05] setFresh(c)
+//@   ensures[C05] reqHasRes(c) && reqRes(c).Memory != nil && reqRes(c).Memory.Limit != nil
+//@   ensures[C05] ctrHasRes(c) && ctrRes(c).Memory != nil && ctrRes(c).Memory.Limit != nil
+//@   ensures[C05] reqRes(c).Memory.Limit.Value == value && ctrRes(c).Memory.Limit.Value == value
+//@   ensures[C05] c.GetMemoryLimit() == value
+
+//@ func (*container).SetMemorySwap
+//@   requires cwf(c) && reqOK(c)
+//@   modifies c.request if c.request == nil, c.pending if c.pending == nil, c.pending[*] if c.pending != nil, c.cache.pending if c.cache.pending == nil, c.cache.pending[*] if c.cache.pending != nil,
+//@     c.Ctr.Linux if c.Ctr.Linux == nil, c.Ctr.Linux.Resources if c.Ctr.Linux != nil && c.Ctr.Linux.Resources == nil,
+//@     asAdj(c.request).Linux if isAdj(c.request) && asAdj(c.request).Linux == nil,
+//@     asAdj(c.request).Linux.Resources if isAdj(c.request) && asAdj(c.request).Linux != nil && asAdj(c.request).Linux.Resources == nil,
+//@     asUpd(c.request).Linux if isUpd(c.request) && asUpd(c.request).Linux == nil,
+//@     asUpd(c.request).Linux.Resources if isUpd(c.request) && asUpd(c.request).Linux != nil && asUpd(c.request).Linux.Resources == nil,
+//@     ctrRes(c).Memory if ctrHasRes(c) && ctrRes(c).Memory == nil, ctrRes(c).Memory.Swap if ctrHasRes(c) && ctrRes(c).Memory != nil,
+//@     reqRes(c).Memory if reqHasRes(c) && reqRes(c).Memory == nil, reqRes(c).Memory.Swap if reqHasRes(c) && reqRes(c).Memory != nil
+//@   ensures[C05] cwf(c) && setReq(c) && setMarked(c)
+//@   ensures[C05] setFresh(c)
+//@   ensures[C05] reqHasRes(c) && reqRes(c).Memory != nil && reqRes(c).Memory.Swap != nil
+//@   ensures[C05] ctrHasRes(c) && ctrRes(c).Memory != nil && ctrRes(c).Memory.Swap != nil
+//@   ensures[C05] reqRes(c).Memory.Swap.Value == value && ctrRes(c).Memory.Swap.Value == value
+//@   ensures[C05] c.GetMemorySwap() == value
+
+// ---- GetPendingContainers: exactly the marked, still-cached containers ---------------------------------------
+// The cache stores every container under its own id (established by InsertContainer, see the C14 file).
+//@ pure keyed(cch *cache) bool = forall id string :: id in cch.Containers ==> cch.Containers[id] != nil && cch.Containers[id].Ctr != nil && cch.Containers[id].Ctr.Id == id
+
+//@ func (*cache).GetPendingContainers safety
+//@   requires cch != nil
+//@   modifies nothing
+//@   ensures[C05] forall j int :: 0 <= j && j < len(result) ==> exists id string :: id in cch.pending && id in cch.Containers && result[j] == cch.Containers[id]
+//@   ensures[C05] forall id string :: id in cch.pending && id in cch.Containers ==> exists j int :: 0 <= j && j < len(result) && result[j] == cch.Containers[id]
+//@   ensures[C05] keyed(cch) ==> forall i int, j int :: 0 <= i && i < j && j < len(result) ==> result[i] != result[j]
+//@ loop 0 in (*cache).GetPendingContainers at "range cch.pending"
+//@   invariant[C05] newobj(pending)
+//@   invariant[C05] forall j int :: 0 <= j && j < len(pending) ==> exists id string :: seen(id) && id in cch.pending && id in cch.Containers && pending[j] == cch.Containers[id]
+//@   invariant[C05] forall id string :: seen(id) && id in cch.Containers ==> exists j int :: 0 <= j && j < len(pending) && pending[j] == cch.Containers[id]
+//@   invariant[C05] forall id string :: seen(id) ==> id in cch.pending
+//@   invariant[C05] keyed(cch) ==> forall i int, j int :: 0 <= i && i < j && j < len(pending) ==> pending[i] != pending[j]
+
+// Class setters: the cached class always changes; the request carries it only when the controller is enabled.
+
+//@ func (*container).SetRDTClass
+//@   requires cwf(c) && reqOK(c)
+//@   modifies c.request if c.request == nil, c.pending if c.pending == nil, c.pending[*] if c.pending != nil, c.cache.pending if c.cache.pending == nil, c.cache.pending[*] if c.cache.pending != nil,
+//@     c.Ctr.Linux if c.Ctr.Linux == nil, c.Ctr.Linux.Resources if c.Ctr.Linux != nil && c.Ctr.Linux.Resources == nil,
+//@     asAdj(c.request).Linux if isAdj(c.request) && asAdj(c.request).Linux == nil,
+//@     asAdj(c.request).Linux.Resources if isAdj(c.request) && asAdj(c.request).Linux != nil && asAdj(c.request).Linux.Resources == nil,
+//@     asUpd(c.request).Linux if isUpd(c.request) && asUpd(c.request).Linux == nil,
+//@     asUpd(c.request).Linux.Resources if isUpd(c.request) && asUpd(c.request).Linux != nil && asUpd(c.request).Linux.Resources == nil,
+//@     ctrRes(c).RdtClass if ctrHasRes(c), reqRes(c).RdtClass if reqHasRes(c)
+//@   ensures[C05] cwf(c) && setReq(c) && setMarked(c)
+//@   ensures[C05] setFresh(c)
+//@   ensures[C05] ctrHasRes(c) && ctrRes(c).RdtClass != nil && ctrRes(c).RdtClass.Value == class
+//@   ensures[C05] c.cache.rdtControl ==> reqHasRes(c) && reqRes(c).RdtClass != nil && reqRes(c).RdtClass.Value == class
+//@   ensures[C05] c.GetRDTClass() == class
+
+//@ func (*container).SetBlockIOClass
+//@   requires cwf(c) && reqOK(c)
+//@   modifies c.request if c.request == nil, c.pending if c.pending == nil, c.pending[*] if c.pending != nil, c.cache.pending if c.cache.pending == nil, c.cache.pending[*] if c.cache.pending != nil,
+//@     c.Ctr.Linux if c.Ctr.Linux == nil, c.Ctr.Linux.Resources if c.Ctr.Linux != nil && c.Ctr.Linux.Resources == nil,
+//@     asAdj(c.request).Linux if isAdj(c.request) && asAdj(c.request).Linux == nil,
+//@     asAdj(c.request).Linux.Resources if isAdj(c.request) && asAdj(c.request).Linux != nil && asAdj(c.request).Linux.Resources == nil,
+//@     asUpd(c.request).Linux if isUpd(c.request) && asUpd(c.request).Linux == nil,
+//@     asUpd(c.request).Linux.Resources if isUpd(c.request) && asUpd(c.request).Linux != nil && asUpd(c.request).Linux.Resources == nil,
+//@     ctrRes(c).BlockioClass if ctrHasRes(c), reqRes(c).BlockioClass if reqHasRes(c)
+//@   ensures[C05] cwf(c) && setReq(c) && setMarked(c)
+//@   ensures[C05] setFresh(c)
+//@   ensures[C05] ctrHasRes(c) && ctrRes(c).BlockioClass != nil && ctrRes(c).BlockioClass.Value == class
+//@   ensures[C05] c.cache.blockIOControl ==> reqHasRes(c) && reqRes(c).BlockioClass != nil && reqRes(c).BlockioClass.Value == class
+//@   ensures[C05] c.GetBlockIOClass() == class
